@@ -194,7 +194,7 @@ impl Check for C09 {
         };
         crate::kit::phase("code-under-test");
         let relevant = case.script.muts.iter().any(|m| {
-            matches!(m, Mut::SectionRel { .. } | Mut::XmlEntities { .. } | Mut::PacketChain { .. } | Mut::XmlMinEqMax { .. } | Mut::PacketZeroStreams { .. } | Mut::BlobInflate { .. } | Mut::HeaderRel { .. } | Mut::XmlDeleteChildren { .. } | Mut::XmlAddRecords { .. } | Mut::XmlDeepNest { .. } | Mut::Section { .. } | Mut::Packet { .. } | Mut::BlobHeader { .. } | Mut::Header { .. })
+            matches!(m, Mut::SectionRel { .. } | Mut::XmlEntities { .. } | Mut::PacketChain { .. } | Mut::XmlMinEqMax { .. } | Mut::PacketZeroStreams { .. } | Mut::BlobInflate { .. } | Mut::HeaderRel { .. } | Mut::XmlDeleteChildren { .. } | Mut::XmlAddRecords { .. } | Mut::XmlDeepNest { .. } | Mut::XmlDeepNestHidden { .. } | Mut::Section { .. } | Mut::Packet { .. } | Mut::BlobHeader { .. } | Mut::Header { .. })
                 || matches!(m, Mut::XmlAttr { name, .. } if name == "recordCount" || name == "length" || name == "fileOffset")
         });
         match drive(&bytes, &mut v) {
